@@ -650,4 +650,85 @@ theorem acc_named_iff (env : Env) (n : String) (d : Decl) (j : Json) (hres : env
       exact ⟨f + 1, v, by rw [hdec]; simp only [hm', hf, Bool.false_eq_true, ↓reduceIte]; exact h⟩
 
 
+theorem map_of_all (w : Wire) (env : Env) (t : GoTy) (F : Nat) :
+    ∀ kvs : List (String × Json), (∀ p ∈ kvs, ∃ v, decode w env F t p.2 = .ok v) →
+      ∃ vs, decodeMap w env (F + kvs.length + 1) t kvs = .ok vs := by
+  intro kvs
+  induction kvs with
+  | nil => intro _; exact ⟨[], by simp [decodeMap]⟩
+  | cons p rest ih =>
+    obtain ⟨k, x⟩ := p
+    intro h
+    obtain ⟨v, hv⟩ := h (k, x) (List.mem_cons_self ..)
+    obtain ⟨vs, hvs⟩ := ih (fun y hy => h y (List.mem_cons_of_mem _ hy))
+    refine ⟨(k, v) :: vs, ?_⟩
+    have hv' := Proofs.decode_ok_mono w env t x v F (F + rest.length + 1) (by omega) hv
+    have e : F + ((k, x) :: rest).length + 1 = (F + rest.length + 1) + 1 := by simp; omega
+    rw [e]
+    simp only [decodeMap, hv', hvs, bind, Except.bind, pure, Except.pure]
+
+theorem all_of_map (w : Wire) (env : Env) (t : GoTy) :
+    ∀ (kvs : List (String × Json)) (f : Nat) (vs : List (String × GoVal)), decodeMap w env f t kvs = .ok vs →
+      ∀ p ∈ kvs, Acc w env t p.2 := by
+  intro kvs
+  induction kvs with
+  | nil => intro _ _ _ p hp; cases hp
+  | cons q rest ih =>
+    obtain ⟨k, y⟩ := q
+    intro f vs h p hp
+    cases f with
+    | zero => simp [decodeMap] at h
+    | succ f =>
+      simp only [decodeMap, bind, Except.bind] at h
+      cases hd : decode w env f t y with
+      | error e => rw [hd] at h; cases h
+      | ok v =>
+        rw [hd] at h
+        simp only at h
+        cases hr : decodeMap w env f t rest with
+        | error e => rw [hr] at h; cases h
+        | ok vs' =>
+          rcases List.mem_cons.mp hp with e | e
+          · subst e; exact ⟨f, v, hd⟩
+          · exact ih f vs' hr p e
+
+theorem common_fuel_map (w : Wire) (env : Env) (t : GoTy) :
+    ∀ kvs : List (String × Json), (∀ p ∈ kvs, Acc w env t p.2) → ∃ F, ∀ p ∈ kvs, ∃ v, decode w env F t p.2 = .ok v := by
+  intro kvs
+  induction kvs with
+  | nil => intro _; exact ⟨0, fun x hx => by cases hx⟩
+  | cons q rest ih =>
+    intro h
+    obtain ⟨F, hF⟩ := ih (fun y hy => h y (List.mem_cons_of_mem _ hy))
+    obtain ⟨f, v, hv⟩ := h q (List.mem_cons_self ..)
+    refine ⟨max F f, ?_⟩
+    intro y hy
+    rcases List.mem_cons.mp hy with e | e
+    · subst e; exact ⟨v, Proofs.decode_ok_mono w env t _ v f _ (Nat.le_max_right ..) hv⟩
+    · obtain ⟨v', hv'⟩ := hF y e
+      exact ⟨v', Proofs.decode_ok_mono w env t _ v' F _ (Nat.le_max_left ..) hv'⟩
+
+/-- **a map accepts an object iff its value type accepts every member's value** (JSON wire) -/
+theorem acc_map_iff (env : Env) (t : GoTy) (kvs : List (String × Json)) :
+    Acc .json env (.map t) (.obj kvs) ↔ ∀ p ∈ kvs, Acc .json env t p.2 := by
+  have hdec : ∀ f, decode .json env (f + 1) (.map t) (.obj kvs) = (decodeMap .json env f t kvs).map .map := by
+    intro f; simp [decode]
+  constructor
+  · rintro ⟨f, v, h⟩
+    cases f with
+    | zero => simp [decode] at h
+    | succ f =>
+      rw [hdec] at h
+      cases hr : decodeMap .json env f t kvs with
+      | error e => rw [hr] at h; cases h
+      | ok vs => exact all_of_map .json env t kvs f vs hr
+  · intro h
+    obtain ⟨F, hF⟩ := common_fuel_map .json env t kvs h
+    obtain ⟨vs, hvs⟩ := map_of_all .json env t F kvs hF
+    exact ⟨F + kvs.length + 1 + 1, .map vs, by rw [hdec, hvs]; rfl⟩
+
+/-- an `interface{}` position accepts everything (JSON wire) -/
+theorem acc_iface (env : Env) (j : Json) : Acc .json env .iface j :=
+  ⟨1, jsonToIface j, by cases j <;> simp [decode]⟩
+
 end GJS.Props.C02
